@@ -44,4 +44,7 @@ def subchecks(tier):
                             lambda a, spec, res: a.get("rec_interrupted_service", 0) >= 2 and a.get("ev_shift_change", 0) >= 2, classes=classes,
                             n={"quick": 3600, "thorough": 30000},
                             rule="pre-emptive priorities and pre-emptive schedules at the same nodes, priority-raising class changes while waiting, reneging (grid times, heavy load); same monitor")
-    return [base, slotted, region, combo, fuzz_subcheck(base, tier)]
+    long_run = system_subcheck("long_run", common.full_profile("C02", plans=("max_time",), horizon=(300.0, 600.0), budget=6000, resumptions=(1, 2), load="heavy"),
+                               lambda spec: [TimeFlow()], lambda a, spec, res: a.get("events", 0) >= 2500, classes=classes, n={"quick": 64, "thorough": 600},
+                               rule="the lattice run over thousands of events; same monitor")
+    return [base, slotted, region, combo, long_run, fuzz_subcheck(base, tier)]
